@@ -100,22 +100,170 @@ Definition item_of_field (f : field) : item :=
 Definition all_items (d : post_dicts) : list item :=
   dict_items (d_post d) ++ dict_items (d_forms d) ++ dict_items (d_files d).
 
+Lemma collect_one_items acc f x :
+  In x (all_items (collect_one acc f)) -> In x (all_items acc) \/ x = item_of_field f.
+Proof.
+  unfold collect_one, all_items, item_of_field.
+  destruct (is_nonempty (f_filename f)); cbn [d_post d_forms d_files]; rewrite !in_app_iff;
+    intros [H|[H|H]]; try (apply dict_add_items in H; destruct H as [H| ->]);
+    (left; tauto) || (right; reflexivity).
+Qed.
+
 Lemma collect_items fl : forall acc x,
   In x (all_items (fold_left collect_one fl acc)) ->
   In x (all_items acc) \/ exists f, In f fl /\ x = item_of_field f.
 Proof.
   induction fl as [|f fl IH]; intros acc x H; [now left|].
   cbn [fold_left] in H. destruct (IH _ _ H) as [H'|(f' & Hf & ->)].
-  - unfold collect_one in H'. fold (item_of_field f) in H'.
-    unfold all_items in *. rewrite !in_app_iff in *.
-    assert (St : forall d, In x (dict_items (dict_add d (f_name f) (item_of_field f))) ->
-                           In x (dict_items d) \/ x = item_of_field f) by (intros d; apply dict_add_items).
-    unfold item_of_field in H', St.
-    destruct (is_nonempty (f_filename f)); cbn [d_post d_forms d_files] in H';
-      destruct H' as [H'|[H'|H']];
-      try (apply St in H'; destruct H' as [H'| ->]; [|right; exists f; split; [now left | unfold item_of_field]]);
-      try (left; tauto).
-    all: try (destruct (is_nonempty (f_filename f)) eqn:E; try reflexivity).
-    all: try (left; tauto).
+  - destruct (collect_one_items acc f x H') as [H2| ->]; [now left|].
+    right. exists f. split; [now left | reflexivity].
   - right. exists f'. split; [now right | reflexivity].
+Qed.
+
+(* ------------------------------------------------------------------ *)
+Definition delivered_ok (body : bytes) (secs : list section) (it : item) : Prop :=
+  match it with
+  | IText (Some v) =>
+    exists ds de, In (Data, ds, de) (tl secs) /\
+                  (if de - ds =? 0 then v = [] else utf8_dec (read_at body ds (de - ds)) = Some v)
+  | IText None => True                         (* empty file name (F10): no value is delivered *)
+  | IFile _ _ _ w => In (Data, fst w, snd w) (tl secs)
+  end.
+
+Lemma field_deliv_item body secs ds de f :
+  In (Data, ds, de) (tl secs) -> field_deliv body ds de f -> delivered_ok body secs (item_of_field f).
+Proof.
+  intros Hin Hd. unfold field_deliv in Hd. unfold item_of_field.
+  destruct (f_filename f) as [fn|].
+  - destruct Hd as [Hf Hv]. destruct fn as [|c fn]; cbn [is_nonempty].
+    + rewrite Hv. exact I.
+    + rewrite Hf. exact Hin.
+  - cbn [is_nonempty]. destruct Hd as [_ (v & -> & Hv)]. cbn [delivered_ok]. now exists ds, de.
+Qed.
+
+Lemma raise_not_ok cls v : raise_ cls <> Ok v.
+Proof.
+  unfold raise_, raise_in. destruct (emap_get _ cls); [discriminate|].
+  destruct (emap_get _ n_RequestError); discriminate.
+Qed.
+
+Section Delivered.
+Variable jk : bytes -> option jkind.
+Variable cfg : config.
+Variable ctype : str.
+Variable fr : framing.
+Variable s : stream.
+
+Lemma body_stage_inr o v : body_stage cfg ctype fr s = inr o -> o <> Ok v.
+Proof.
+  unfold body_stage.
+  destruct (boundary_match ctype) as [b|].
+  - destruct (utf8_encode b) as [B|]; [|intros [= <-]; discriminate].
+    destruct (contains_char N.eqb CR B); [intros [= <-]; apply raise_not_ok|].
+    destruct (read_parts cfg fr s); intros [= <-]; (apply raise_not_ok || discriminate).
+  - destruct (read_parts cfg fr s); intros [= <-]; (apply raise_not_ok || discriminate).
+Qed.
+
+Lemma body_stage_inl body m :
+  body_stage cfg ctype fr s = inl (body, Some m) ->
+  exists b B parts, boundary_match ctype = Some b /\ utf8_encode b = Some B /\
+                    read_parts cfg fr s = RDone parts /\ body = concat parts /\ m = markup_chunks B parts.
+Proof.
+  unfold body_stage.
+  destruct (boundary_match ctype) as [b|] eqn:Eb.
+  - destruct (utf8_encode b) as [B|] eqn:EB; [|discriminate].
+    destruct (contains_char N.eqb CR B); [discriminate|].
+    destruct (read_parts cfg fr s) as [parts| | |] eqn:E; try discriminate.
+    intros [= <- <-]. exists b, B, parts. repeat split; assumption || reflexivity.
+  - destruct (read_parts cfg fr s); discriminate.
+Qed.
+
+Lemma get_body_string_inr o v : get_body_string cfg ctype fr s = inr o -> o <> Ok v.
+Proof.
+  unfold get_body_string. destruct (body_stage cfg ctype fr s) as [[body m]|o'] eqn:E.
+  - destruct (_ <? _); [intros [= <-]; apply raise_not_ok|].
+    destruct (_ <? _); [intros [= <-]; apply raise_not_ok | discriminate].
+  - intros [= <-]. now apply (body_stage_inr o').
+Qed.
+
+Lemma json_prop_not_mp d : json_prop jk cfg ctype fr s <> Ok (VMultipart d).
+Proof.
+  unfold json_prop. destruct (str_eqb _ s_app_json); [|discriminate].
+  destruct (get_body_string cfg ctype fr s) as [b|o] eqn:E.
+  - destruct b; [discriminate|]. destruct (jk _); [discriminate | apply raise_not_ok].
+  - now apply (get_body_string_inr o).
+Qed.
+
+Theorem delivered_fields_complete a d :
+  process jk cfg ctype fr s a = Ok (VMultipart d) ->
+  exists b B parts,
+    boundary_match ctype = Some b /\ utf8_encode b = Some B /\ read_parts cfg fr s = RDone parts /\
+    forall it, In it (all_items d) ->
+               delivered_ok (concat parts) (fst (markup_chunks B parts)) it.
+Proof.
+  assert (Post : post_prop jk cfg ctype fr s = Ok (VMultipart d) ->
+                 exists b B parts,
+                   boundary_match ctype = Some b /\ utf8_encode b = Some B /\ read_parts cfg fr s = RDone parts /\
+                   forall it, In it (all_items d) -> delivered_ok (concat parts) (fst (markup_chunks B parts)) it).
+  { unfold post_prop. destruct (negb _).
+    - destruct (prefixb s_app_json _).
+      + pose proof (json_prop_not_mp d) as Hj.
+        destruct (json_prop jk cfg ctype fr s) as [v|c|w]; try discriminate.
+        destruct v as [x|[[| |]|]| |k|d']; try discriminate; try (intros H; now apply raise_not_ok in H).
+        intros [= ->]. now elim Hj.
+      + destruct (get_body_string cfg ctype fr s) as [x|o] eqn:E; [discriminate|].
+        intros H. now apply (get_body_string_inr o _ E) in H.
+    - destruct (body_stage cfg ctype fr s) as [[body [m|]]|o] eqn:E.
+      + destruct (snd m) as [e|] eqn:Em; [intros H; now apply raise_not_ok in H|].
+        destruct (iter_items body (fst m) (Z.of_nat (c_memfile cfg))) as [fs|[| |]|] eqn:Ei;
+          try discriminate; try (intros H; now apply raise_not_ok in H).
+        intros [= <-].
+        destruct (body_stage_inl body m E) as (b & B & parts & Hb & HB & Hr & -> & ->).
+        exists b, B, parts. repeat split; try assumption.
+        intros it Hit. unfold collect_fields in Hit.
+        destruct (collect_items fs _ it Hit) as [H0|(f & Hf & ->)].
+        * unfold all_items in H0. cbn in H0. tauto.
+        * destruct (iter_items_deliv _ _ _ _ Ei f Hf) as (ds & de & Hin & Hd).
+          now apply (field_deliv_item _ _ ds de).
+      + intros H. now apply raise_not_ok in H.
+      + intros H. now apply (body_stage_inr o _ E) in H. }
+  destruct a; cbn [process]; try exact Post.
+  - intros H. now apply json_prop_not_mp in H.
+  - unfold body_prop. destruct (body_stage cfg ctype fr s) as [[body m]|o] eqn:E; [discriminate|].
+    intros H. now apply (body_stage_inr o _ E) in H.
+Qed.
+
+End Delivered.
+
+(* ------------------------------------------------------------------ *)
+(* in the one-piece scanner, every data section after the preamble ends exactly
+   where a delimiter CRLF--B starts: a truncated part is never reported *)
+Lemma scan_delim_closed tok body :
+  forall fuel a k ds de,
+    In (k, ds, de) (fst (scan_delim fuel tok body a)) -> k = Data ->
+    exists q, de = Z.of_nat q /\ prefixb tok (skipn q body) = true.
+Proof.
+  induction fuel as [|f IH]; intros a k ds de; cbn [scan_delim]; [intros []|].
+  destruct (skipn a body) as [|c1 [|c2 r]]; try (intros []).
+  - destruct (_ || _)%bool; intros [].
+  - destruct (_ && _)%bool.
+    + destruct (findb H4 (skipn (a + 2) body)) as [e|]; [|intros []].
+      destruct (findb tok (skipn (a + 2 + e + 4) body)) as [q|] eqn:Eq.
+      * unfold cons_secs. cbn [fst app]. intros [H|[H|H]] Hk.
+        -- injection H as <- _ _. discriminate.
+        -- injection H as _ _ <-. exists (a + 2 + e + 4 + q)%nat. split; [reflexivity|].
+           apply findb_some in Eq. destruct Eq as [Hp _]. rewrite ListX.skipn_skipn in Hp. exact Hp.
+        -- now apply (IH _ k ds de H).
+      * cbn [fst]. intros [H|[]] Hk. injection H as <- _ _. discriminate.
+    + destruct (_ && _)%bool; intros [].
+Qed.
+
+Theorem ref_data_closed B body k ds de :
+  In (k, ds, de) (tl (fst (ref B body))) -> k = Data ->
+  exists q, de = Z.of_nat q /\ prefixb (token B) (skipn q body) = true.
+Proof.
+  unfold ref. destruct body as [|c body']; [intros []|].
+  destruct (_ || _)%bool; [|intros []].
+  destruct (findb (token B) _) as [q|]; [|intros []].
+  unfold cons_secs. cbn [fst app tl]. apply scan_delim_closed.
 Qed.
